@@ -388,6 +388,35 @@ def main(chk, replay=None):
                 viol("a call under different context args was served the result of %s" % entry, {"clause": "context", "via": entry},
                      fn=name, context_args=ctx, other=other_ctx)
             fn.forget_all()
+        # a nested call that inherits its caller's context arguments is keyed with them (stored under the documented key, served
+        # separately per context)
+        for ni in range(4 if quick else 40):
+            v = gen_value(rng, rng.randint(0, 1))
+            ctxs = [{"tenant": "a"}, {"tenant": "b"}, {"k": 1, "j": [True]}]
+            rng.shuffle(ctxs)
+            c04fns.s1.forget_all()
+            c04fns.n_outer.forget_all()
+            c04fns.REC.calls.clear()
+            try:
+                seen = []
+                for cx in ctxs[:2]:
+                    c04fns.n_outer.with_context_args(cx)(v)
+                    seen.append(sorted(mm.invocation_metadata.fn_reference_with_args.arg_hash for mm in c04fns.s1.list_mementos()))
+                c04fns.n_outer(v)
+                inner_runs = len([c for c in c04fns.REC.calls if c[0] == "s1"])
+                want = [real_fwa(c04fns.s1, dict(pargs=[], pkw={}, args=[], kwargs={"a": v}), cx).arg_hash for cx in ctxs[:2]]
+            except Exception as e:
+                viol("a nested call under context args raised", {"clause": "presentation-accepted", "via": "nested"}, error=repr(e)[:300])
+                continue
+            chk.case(["nested-context", to_sexpr(v), to_sexpr(ctxs[:2])], nontrivial=True, sample=dict(kind="nested call inheriting context args", contexts=ctxs[:2]))
+            chk.count("entry-point:nested-inherited-context")
+            if seen[0] != [want[0]] or seen[1] != sorted(want):
+                viol("a nested call that inherits context args is not stored under the key of those context args", {"clause": "context", "via": "nested"},
+                     contexts=ctxs[:2], stored=[[h[:16] for h in x] for x in seen], expected=[h[:16] for h in want])
+            elif inner_runs != 3:
+                viol("nested calls under different context args shared a result", {"clause": "context", "via": "nested"}, contexts=ctxs[:2], executions=inner_runs)
+        c04fns.s1.forget_all()
+        c04fns.n_outer.forget_all()
         # malformed stream: both sides reject
         for bad in [(1, 2), {1, 2}, {1: 2}, b"x", object(), complex(1, 2), [b"x"], {"a": (1,)}]:
             try:
